@@ -422,4 +422,10 @@ def run(db, chk):
                "exactly one donor entry (inverse with multiplicity; shared with C05-M1)", min_instances=100)
     chk.absorb(db, "C04", {"C04-S2"}, "C06-F2b", "the single-direction router (both bodies) registers the node "
                "exactly once as donor of its receiver (shared with C04-S2)", min_instances=100)
+    chk.absorb(db, "C09", {"C09-P2"}, "C06-F4", "the routers keep no state between updates: receiver counts and "
+               "weights are rewritten at every update (shared with C09-P2)",
+               pred=lambda o: "_flow_router::apply" in o["instance"], min_instances=6)
+    chk.absorb(db, "C20", {"C20-T1"}, "C06-F5", "operator sequences whose flow directions do not match are rejected "
+               "(shared with C20-T1): a resolver fed a multiple-direction state rewrites column 0 only",
+               min_instances=399)
     chk.count_scenarios(n, True)
